@@ -52,8 +52,10 @@ SPEC = dict(
          "#hits, random} a fresh scanner is advanced by k calls of next() and then asked for max(), under each forced "
          "dispatcher arm. PROPFAIL: the extracted checker check_c03, proved sound in Coq (C03_check_sound), on the "
          "implementation's own per-position scores (None only if every qualifying position was consumed; otherwise an "
-         "unconsumed qualifying position with its exact score bits, >= every unconsumed qualifying score); any panic "
-         "on a configured input. DIFF: consumed prefix, position and score bits against the extracted binary32 "
+         "unconsumed qualifying position with its exact score bits, >= every unconsumed qualifying score); "
+         "max-depends-on-block-size, decided by the extracted same_answer (C03_same_answer_spec) on the observation maxb=; any panic "
+         "on an input that satisfies the extracted predicate pre_ok (C02_pre_ok_spec: configured input). DIFF: consumed prefix "
+         "(position AND score bits of every consumed hit), position and score bits of the answer against the extracted binary32 "
          "model. Non-trivial: as C02, distinct also by the prefix list. Theorems (C03.v, 11): C03_max_after_prefix (any k: no "
          "panic, None iff nothing unconsumed qualifies, else an unconsumed qualifying position with its exact score "
          "that dominates every unconsumed non-NaN score; the largest index among the maxima when no hit was buffered), "
@@ -71,10 +73,28 @@ SPEC = dict(
          "the toy instance, 3 order/pruning-only deviations do not) restates the property for the scanner parameterised by the "
          "statement skeleton that translate/scan_skel.py re-reads from scan.rs on every run (coq/scan/GenScan.v). Prefixes (round 3): "
          "k = number of hits of the first one / two blocks, -1, +1 (max() with an empty buffer at a block boundary / one buffered hit "
-         "left); `swmax=`: setters called between the k calls of next() and max() (tie + weak judge in the driver, no theorem). "
+         "left); `swmax=`: setters called between the k calls of next() and max() (tie against ScanSwitch.v and the word-level model "
+         "of coq/scan/ScanWord.v + the extracted judge check_swmax, a weak property of our own, C03_check_swmax_sound; no nat-level "
+         "soundness theorem for max() after setters: the word-level equalities C03_word_setters_max_eq / "
+         "C03_word_saturating_setters_max_eq / C03_source_setters_max_eq reduce it to the nat-level model). "
          "The corpus holds boundary "
          "cases, the inputs on which the deliberate mutations of Scanner::max and the seeded changes were caught, the "
-         "witnesses of the repaired defect F14b (must pass) and the witness of known finding F14-c03; corpus/C03/round3.txt and round3_mutation_witnesses.txt.",
+         "witnesses of the repaired defect F14b (must pass) and the witness of known finding F14-c03; corpus/C03/round3.txt and round3_mutation_witnesses.txt. "
+         "C03Total.v (wave 3; 12, one of them the helper lemma fresh_answer_unique): C03_max_total, C03_concrete_max_total (max() "
+         "returns from every state - after any k calls of next() - under the order and layout hypotheses only: the panics of "
+         "max_by().unwrap() and of the cell lookup and running out of fuel are excluded without any hypothesis on the 8-bit "
+         "pre-filter), C03_concrete_max_block_independent / C03_concrete_max_block_independent_wc_checked (binary32 scanner: the same "
+         "answer, position included, for any two arms and any two block sizes >= 1; the first under C08's main clause per position, "
+         "the second with no numeric hypothesis on well-conditioned matrices), C03_word_setters_max_eq, "
+         "C03_word_setters_max_any_block_size_refuted (B' = 2^64-1 between next() and max(): Panic 40 with overflow checks, a "
+         "consumed position returned when wrapping, right answer when saturating; finding F-scan-ovf, repaired by /repo 3bcb63a), "
+         "C03_word_saturating_setters_max_eq, C03_source_setters_max_eq (at the add kind the translator reads from scan.rs; no bound on "
+         "B' since the source uses saturating_add), C03_source_concrete_max_wc_checked_full (the skeleton scanner's statement WITH the "
+         "tie-break conjunct that C03Source.v drops), C03_check_swmax_sound, C03_same_answer_spec. C03Source.v's 5 theorems are TIE "
+         "theorems. Observation maxb= on every case and arm: max() of a fresh scanner under B and under B' (1, or 7 when B = 1; set "
+         "before iteration) must agree (PROPFAIL max-depends-on-block-size .. wc=<b>; wc=false differences are a consequence of F14 "
+         "and covered by the known entry F14-c03; DIFF against the model under B' on one arm). corpus/C03/wave3_overflow.txt: the "
+         "witnesses of the repaired F-scan-ovf (must pass), also run through the release build by the `extra` step.",
     trusted_base=c02.COMMON_TRUSTED,
     assumptions=[
         "conservative (property C08), for every bound t the scanner derives (the threshold and the score of each "
@@ -98,5 +118,12 @@ SPEC = dict(
         "block-size independence is stated for max() on a fresh scanner; after k > 0 calls of next() the consumed "
         "set itself depends on the block size (yield order), so the statement is C03_max_after_prefix: the answer is "
         "a maximum over what was not consumed",
+        "block size fixed before the first call (the property text) - or changed between next() and max(): with the plain `+` "
+        "of the source before /repo 3bcb63a only to B' <= 2^64 - R (C03_word_setters_max_eq), with the repaired saturating_add "
+        "to any B' (C03_word_saturating_setters_max_eq; C03_source_setters_max_eq carries the hypothesis "
+        "`gen_row_add_saturating = true or R + B' <= 2^64`, whose first disjunct the translator's constant makes true today)",
+        "the theorems that carry the C08 hypothesis (C03_concrete_max, C03_concrete_max_explicit, C03_concrete_max_c08; "
+        "C03_concrete_max_block_independent) are PARTIAL in the sense of the guide (names kept without `_partial`: coq/e2e "
+        "refers to them by name); totality needs no numeric hypothesis (C03_max_total, C03_concrete_max_total)",
     ],
 )
